@@ -35,6 +35,7 @@ def plan(tier: str, seed: int) -> t.List[dict]:
     n = 2500 if tier == "quick" else 62500
     specs = [{"name": f"sids-{i}", "kind": "sids", "n": n} for i in range(16)]
     specs.append({"name": "grid", "kind": "grid"})
+    specs.append({"name": "small", "kind": "small"})
     specs.append({"name": "nearmiss", "kind": "nearmiss", "n": 4000 if tier == "quick" else 100000})
     for i in range(2 if tier == "quick" else 8):
         specs.append({"name": f"threads-{i}", "kind": "threads", "n": 300 if tier == "quick" else 1500, "rounds": 4 if tier == "quick" else 10})
@@ -172,6 +173,9 @@ def near_misses(rng: random.Random) -> t.Iterator[t.Tuple[str, str]]:
     yield "empty", ""
     yield "just-S", "S"
     yield "S-", "S-"
+    # descriptor-rule syntax around a SID (what NCryptCreateProtectionDescriptor takes) is not a SID string either
+    for form in ("SID={}", "sid={}", "SID=={}", "SID= {}", "SID={} AND SID=S-1-5-18", "SID=S-1-5-18 AND SID={}", "SID={} OR SID=S-1-1-0", "{};", "({})", "SID:{}", "LOCAL=user;SID={}", "SDDL=O:{}"):
+        yield "descriptor-rule-syntax", form.format(s)
     # other numeral notations, in and out of range (none of them is the canonical decimal form)
     auths = ["0x5", "0X5", "0x000000000005", "0xFFFFFFFFFFFF", "0x1000000000000", "0x10000000000000000", "0x" + "F" * 40, "0o5", "0b101", "5e3", "1_0", "\uff15", "-5", "+5", " 5"]
     subsn = ["0x12", "0xFFFFFFFF", "0x100000000", "0x10000000000000000", "0x" + "f" * 64, "1_000", "1e3", "0o17", "+1", "-1", " 1", "1 ", "\uff12", "0x0"]
@@ -234,6 +238,23 @@ def run_shard(spec: dict, rec: Recorder) -> None:
             check_sid(rec, sid, seen)
             rec.case(("sid", str(sid)), nontrivial=str(sid) not in SUITE_SIDS, sample={"sid": str(sid)} if i < 2 else None)
         rec.seen("subauthority_counts", "all 1..15")
+    elif spec["kind"] == "small":
+        # every small SID: the well-known ones live here, and so would any table of special cases
+        for a in range(0, 23):
+            for v in range(0, 1100):
+                sid = rsd.Sid(1, a, (v,))
+                check_sid(rec, sid, seen)
+            rec.case(("small", a))
+        for first in (21, 32, 64, 80, 90):
+            for v in list(range(0, 20)) + list(range(480, 600)) + [1000, 1104]:
+                check_sid(rec, rsd.Sid(1, 5, (first, v)), seen)
+                check_sid(rec, rsd.Sid(1, 5, (first, 1, 2, 3, v)), seen)
+        for a in (15, 16, 18, 19):
+            for v in range(0, 70):
+                for w in (0, 1, 2, 4096, 8192, 12288, 16384):
+                    check_sid(rec, rsd.Sid(1, a, (v, w)), seen)
+        rec.count("small_sid_grid")
+        rec.mark_exhaustive("S-1-a-v for a in 0..22, v in 0..1099; S-1-5-{21,32,64,80,90}-v well-known ranges")
     elif spec["kind"] == "grid":
         # every (n, R) with every boundary class in every position once
         for n in range(1, 16):
